@@ -2134,6 +2134,14 @@ class BaseInterpreter(Generic[TContext, TEvent]):
                 )
                 if resolved:
                     return [resolved]
+            if parent.type == "parallel":
+                # 🌐 An unvisited history state of a parallel parent stands
+                #    for the parent's normal entry: every region.
+                return [
+                    child
+                    for child in parent.states.values()
+                    if child.type != "history"
+                ]
             if parent.initial and parent.initial in parent.states:
                 return [parent.states[parent.initial]]
             return []
